@@ -40,6 +40,7 @@ def cases(ctx):
     q = ctx.tier == 'quick'
     yield 'exh_lists', {'maxlen': 2 if q else 3, 'mod': ctx.nshards, 'rem': ctx.shard}
     n = 3000 if q else 60000
+    ctx.new_phase()
     for i in range(n):
         if not ctx.time_left():
             break
